@@ -7,7 +7,7 @@ denoting `v` is `render ws v` for a decoration `ws` and a well-formed `v`).  Mod
 `/repo/json/json.go`: `Verif.Model.Json` (`events` = contract of the dependency parser,
 `minifyEvents` = the loop of `Minify`, `minifyText` = both composed through the spec parser).
 `minify.Number` is the parameter `num`; what is needed of it is stated as the hypotheses
-`NumGrammar` (all precisions) and `NumValue` (precision ≤ 0), to be discharged by C08.
+`NumGrammar`, `NumDotShrinks` (all precisions) and `NumValue` (precision ≤ 0), to be discharged by C08.
 -/
 namespace Verif.Props.C07
 open Verif.Spec.Json Verif.Model.Json Verif.Proofs.Json Verif.Proofs.JsonParse
@@ -24,34 +24,71 @@ theorem minify_events (o : JsonOpts) (num : List Char → Int → List Char) (v 
 
 /-! ## (b) numbers -/
 
-/-- the identity satisfies the hypotheses on `num` (they are satisfiable) -/
-theorem numId_ok (p : Int) : NumGrammar (fun s _ => s) p ∧ NumValue (fun s _ => s) p := by
-  refine ⟨fun s hs => ⟨?_, Nat.le_refl _⟩, fun _ _ => rfl⟩
-  unfold isJsonNumber at hs
-  simp only [unsignedOk, Bool.and_eq_true] at hs
-  simp [isMinNumber, unsignedMinOk, hs.1, hs.2]
+theorem json_not_startsDot (s : List Char) (hs : isJsonNumber s = true) : startsDot s = false := by
+  cases hd : startsDot s with
+  | false => rfl
+  | true =>
+    exfalso
+    unfold startsDot at hd
+    split at hd
+    · simp [isJsonNumber, stripMinus, unsignedOk, isDigit, intOk] at hs
+    · simp [isJsonNumber, stripMinus, unsignedOk, isDigit, intOk] at hs
+    · simp at hd
 
-/-- What `Minify` writes for a JSON number lexeme is again a JSON number lexeme (no `.5`, `-.5`),
-    and it is longer than the lexeme only under the trigger `numGrows` (then by one byte). -/
+/-- the identity satisfies the hypotheses on `num` (they are satisfiable) -/
+theorem numId_ok (p : Int) :
+    NumGrammar (fun s _ => s) p ∧ NumDotShrinks (fun s _ => s) p ∧ NumValue (fun s _ => s) p := by
+  refine ⟨fun s hs => ⟨?_, Nat.le_refl _⟩, fun s hs _ hd => ?_, fun _ _ => rfl⟩
+  · unfold isJsonNumber at hs
+    simp only [unsignedOk, Bool.and_eq_true] at hs
+    simp [isMinNumber, unsignedMinOk, hs.1, hs.2]
+  · simp [json_not_startsDot s hs] at hd
+
+theorem repair_len (r : List Char) :
+    (repair r).length = r.length + (if startsDot r = true then 1 else 0) := by
+  rcases repair_cases r with ⟨t, rfl, hr⟩ | ⟨t, rfl, hr⟩ | ⟨hr, hsd⟩
+  · rw [hr]; simp [startsDot]
+  · rw [hr]; simp [startsDot]
+  · rw [hr, hsd]; simp
+
+/-- What `Minify` writes for a JSON number lexeme is again a JSON number lexeme (no `.5`, `-.5`)
+    and never longer than the lexeme. -/
 theorem jsonNum_ok (o : JsonOpts) (num : List Char → Int → List Char)
-    (hg : NumGrammar num o.precision) (s : List Char) (hs : isJsonNumber s = true) :
-    isJsonNumber (jsonNum o num s) = true ∧
-    (jsonNum o num s).length ≤ s.length + (if numGrows o num s = true then 1 else 0) := by
-  unfold jsonNum numGrows
+    (hg : NumGrammar num o.precision) (hd : NumDotShrinks num o.precision)
+    (s : List Char) (hs : isJsonNumber s = true) :
+    isJsonNumber (jsonNum o num s) = true ∧ (jsonNum o num s).length ≤ s.length := by
+  unfold jsonNum
   cases hk : o.keepNumbers with
   | true => simp [hs]
   | false =>
     obtain ⟨h1, h2⟩ := hg s hs
-    refine ⟨by simpa using repair_json _ h1, ?_⟩
-    simp only [Bool.false_eq_true, if_false, Bool.not_false, Bool.true_and]
-    rcases repair_cases (num s o.precision) with ⟨t, ht, hr⟩ | ⟨t, ht, hr⟩ | ⟨hr, hsd⟩
-    · rw [hr, ht]; simp only [startsDot, List.length_cons, Bool.true_and, beq_iff_eq]
-      rw [ht] at h2; simp only [List.length_cons] at h2
-      split <;> omega
-    · rw [hr, ht]; simp only [startsDot, List.length_cons, Bool.true_and, beq_iff_eq]
-      rw [ht] at h2; simp only [List.length_cons] at h2
-      split <;> omega
-    · rw [hr, hsd]; simp; exact h2
+    simp only [Bool.false_eq_true, if_false, jsonNumOut]
+    split
+    · exact ⟨hs, Nat.le_refl _⟩
+    · rename_i hc
+      refine ⟨repair_json _ h1, ?_⟩
+      rw [repair_len]
+      cases hsd : startsDot (num s o.precision) with
+      | false => simpa using h2
+      | true =>
+        simp only [hsd, Bool.and_true, Bool.and_eq_true, decide_eq_true_eq, not_and, Nat.not_le] at hc
+        simp only [if_true]
+        cases he : hasExp s with
+        | false => have := hd s hs he hsd; omega
+        | true => have := hc he; omega
+
+/-- the grammar half of `jsonNum_ok` needs `NumGrammar` only -/
+theorem jsonNum_json (o : JsonOpts) (num : List Char → Int → List Char)
+    (hg : NumGrammar num o.precision) (s : List Char) (hs : isJsonNumber s = true) :
+    isJsonNumber (jsonNum o num s) = true := by
+  unfold jsonNum
+  cases o.keepNumbers with
+  | true => simpa using hs
+  | false =>
+    simp only [Bool.false_eq_true, if_false, jsonNumOut]
+    split
+    · exact hs
+    · exact repair_json _ (hg s hs).1
 
 /-- At precision ≤ 0 (hypothesis `NumValue`) the written number has the value of the lexeme. -/
 theorem jsonNum_value (o : JsonOpts) (num : List Char → Int → List Char)
@@ -63,8 +100,10 @@ theorem jsonNum_value (o : JsonOpts) (num : List Char → Int → List Char)
     cases o.keepNumbers with
     | true => rfl
     | false =>
-      simp only [Bool.false_eq_true, if_false]
-      rw [repair_val _ (hg s hs).1, hv s hs]
+      simp only [Bool.false_eq_true, if_false, jsonNumOut]
+      split
+      · rfl
+      · rw [repair_val _ (hg s hs).1, hv s hs]
   exact ⟨h, numEq_of_val s _ hs h⟩
 
 /-- `KeepNumbers`: every number lexeme is written unchanged — no hypothesis on `num`. -/
@@ -100,7 +139,7 @@ theorem C07_main (o : JsonOpts) (num : List Char → Int → List Char)
     parseJ (compact (mapNum (jsonNum o num) v)) = some (mapNum (jsonNum o num) v) ∧
     jvEq v (mapNum (jsonNum o num) v) = true := by
   have hw' : wf (mapNum (jsonNum o num) v) = true :=
-    wf_mapNum _ (fun s hs => (jsonNum_ok o num hg s hs).1) v hw
+    wf_mapNum _ (fun s hs => jsonNum_json o num hg s hs) v hw
   refine ⟨?_, hw', parse_render _ hw' noWs, ?_⟩
   · simp [minifyText, parse_render v hw ws, minify_events o num v hw]
   · exact jvEq_mapNum _ (fun s hs => (jsonNum_value o num hg hv s hs).2) v hw
@@ -113,8 +152,8 @@ theorem C07_shape (o : JsonOpts) (num : List Char → Int → List Char)
     minifyText o num (render ws v) = some (compact (mapNum (jsonNum o num) v)) ∧
     wf (mapNum (jsonNum o num) v) = true ∧
     jvShapeEq v (mapNum (jsonNum o num) v) = true := by
-  refine ⟨?_, wf_mapNum _ (fun s hs => (jsonNum_ok o num hg s hs).1) v hw,
-    jvShapeEq_mapNum _ (fun s hs => (jsonNum_ok o num hg s hs).1) v hw⟩
+  refine ⟨?_, wf_mapNum _ (fun s hs => jsonNum_json o num hg s hs) v hw,
+    jvShapeEq_mapNum _ (fun s hs => jsonNum_json o num hg s hs) v hw⟩
   simp [minifyText, parse_render v hw ws, minify_events o num v hw]
 
 /-- **C07, KeepNumbers.**  With number keeping the output is the input with the whitespace removed:
@@ -137,58 +176,42 @@ theorem C07_length (f : List Char → List Char)
   rw [countNum_false] at this
   exact this
 
-/-- The output of the minifier is longer than the input by at most the number of number lexemes
-    under the trigger `numGrows` (known finding K-C07-1). -/
-theorem C07_length_bound (o : JsonOpts) (num : List Char → Int → List Char)
-    (hg : NumGrammar num o.precision) (v : JV) (hw : wf v = true) (ws : Ws) :
-    (compact (mapNum (jsonNum o num) v)).length ≤
-      (render ws v).length + countNum (numGrows o num) v :=
-  len_bound _ _ (fun s hs => (jsonNum_ok o num hg s hs).2) v hw ws
+/-- **C07, length clause (full).**  The output is never longer than the input: for every well-formed
+    value, every decoration, every option set (any precision, KeepNumbers on or off). -/
+theorem C07_length_full (o : JsonOpts) (num : List Char → Int → List Char)
+    (hg : NumGrammar num o.precision) (hd : NumDotShrinks num o.precision)
+    (v : JV) (hw : wf v = true) (ws : Ws) :
+    (compact (mapNum (jsonNum o num) v)).length ≤ (render ws v).length :=
+  C07_length _ (fun s hs => (jsonNum_ok o num hg hd s hs).2) v hw ws
 
-/-- full statement of the length clause: the output is never longer than the input -/
-def C07_length_full : Prop :=
-  ∀ (o : JsonOpts) (num : List Char → Int → List Char),
-    NumGrammar num o.precision → NumValue num o.precision →
-    ∀ (v : JV), wf v = true → ∀ ws : Ws,
-      (compact (mapNum (jsonNum o num) v)).length ≤ (render ws v).length
-
-/-- proved part: no number lexeme of `v` is under the trigger of K-C07-1 -/
-theorem C07_length_partial (o : JsonOpts) (num : List Char → Int → List Char)
-    (hg : NumGrammar num o.precision) (v : JV) (hw : wf v = true) (ws : Ws)
-    (guard : countNum (numGrows o num) v = 0) :
-    (compact (mapNum (jsonNum o num) v)).length ≤ (render ws v).length := by
-  have := C07_length_bound o num hg v hw ws
-  omega
-
-/-- with `KeepNumbers` the guard holds for every value: the output is never longer -/
+/-- with `KeepNumbers` no hypothesis on `num` is needed -/
 theorem C07_length_keep (o : JsonOpts) (num : List Char → Int → List Char)
     (hk : o.keepNumbers = true) (v : JV) (hw : wf v = true) (ws : Ws) :
     (compact (mapNum (jsonNum o num) v)).length ≤ (render ws v).length :=
   C07_length _ (fun s _ => by simp [jsonNum_keep o num hk s]) v hw ws
 
 /-- a shortener that behaves like `minify.Number` on `1e-3` (↦ `.001`, same value, same length)
-    and is the identity elsewhere -/
+    and is the identity elsewhere: it satisfies all three hypotheses, and json.go keeps `1e-3` -/
 def numCE : List Char → Int → List Char :=
   fun s _ => if s = ['1', 'e', '-', '3'] then ['.', '0', '0', '1'] else s
 
-theorem numCE_ok : NumGrammar numCE 0 ∧ NumValue numCE 0 := by
-  constructor
+theorem numCE_ok : NumGrammar numCE 0 ∧ NumDotShrinks numCE 0 ∧ NumValue numCE 0 := by
+  refine ⟨?_, ?_, ?_⟩
   · intro s hs
     unfold numCE
     by_cases h : s = ['1', 'e', '-', '3']
     · subst h; exact ⟨by decide, by decide⟩
     · simp only [h, if_false]; exact (numId_ok 0).1 s hs
+  · intro s hs he hd
+    unfold numCE at hd ⊢
+    by_cases h : s = ['1', 'e', '-', '3']
+    · subst h; exact absurd he (by decide)
+    · simp only [h, if_false] at hd ⊢; exact (numId_ok 0).2.1 s hs he hd
   · intro s hs
     unfold numCE
     by_cases h : s = ['1', 'e', '-', '3']
     · subst h; decide +kernel
     · simp only [h, if_false]
-
-/-- The length clause fails as soon as the shortener turns `1e-3` into `.001` (which
-    `minify.Number` does: the harness replays `1e-3 ↦ 0.001` on the real code, K-C07-1): the repair
-    makes `0.001`, five bytes for four. -/
-theorem C07_length_counterexample : ¬ C07_length_full := fun h =>
-  absurd (h {} numCE numCE_ok.1 numCE_ok.2 (.num ['1', 'e', '-', '3']) (by decide) noWs) (by decide)
 
 /-! ## non-vacuity -/
 
@@ -200,9 +223,11 @@ def sample : JV :=
 example : wf sample = true := by decide
 example : (events .value sample).length = 15 := by decide
 example : minifyEvents {} numCE (events .value sample) =
-    "{\"a\":[0.001,-0.50,null,[]],\"a\":\"x\\\"\\u00e9\",\"\":{}}".toList := by decide
-example : countNum (numGrows {} numCE) sample = 1 := by decide
-example : countNum (numGrows {} (fun s _ => s)) sample = 0 := by decide
+    "{\"a\":[1e-3,-0.50,null,[]],\"a\":\"x\\\"\\u00e9\",\"\":{}}".toList := by decide
+example : jsonNum {} (fun _ _ => ".5".toList) "0.5".toList = "0.5".toList ∧
+    jsonNum {} (fun _ _ => "-.5".toList) "-0.50".toList = "-0.5".toList ∧
+    jsonNum {} (fun _ _ => ".001".toList) "1E-3".toList = "1E-3".toList ∧
+    jsonNum {} (fun _ _ => ".0012".toList) "1.2e-3".toList = "0.0012".toList := by decide
 example : isJsonNumber "-1.5E+10".toList = true ∧ isJsonNumber ".5".toList = false ∧
     isMinNumber "-.5e-7".toList = true ∧ isJsonString "\"\\u12aF\\n\"".toList = true := by decide
 
